@@ -228,9 +228,34 @@ class FitConstrained(Contract):
         y = 0.5 + 2.0 * x
         c = {"type": "ineq", "fun": lambda p: 1 - p[1]}
         d = virocon.DependenceFunction(lambda x, a=1.0, b=1.0: a + b * x, bounds=[(0, None), (0, None)], constraints=c if case["cons"] != "list" else [c])
-        d.fit(x, y)
+        # what is handed to the optimiser: objective = sum of squared residuals, start values, bounds, constraints
+        import virocon._fitting as vf_
+        seen = {}
+        real_min = vf_.minimize
+
+        def spy(fun, x0, *a, **k):
+            seen.update(fun=fun, x0=np.array(x0, dtype=float), kw=dict(k))
+            return real_min(fun, x0, *a, **k)
+        try:
+            vf_.minimize = spy
+            d.fit(x, y)
+        finally:
+            vf_.minimize = real_min
         b = float(d.parameters["b"])
-        return {"confirmed": bool(b > 1 + 1e-6), "detail": f"declared constraint b <= 1, fitted b = {b}"}
+        if b > 1 + 1e-6:
+            return {"confirmed": True, "detail": f"declared constraint b <= 1, fitted b = {b}"}
+        if "fun" in seen:
+            for pt in (np.array([0.3, 0.7]), np.array([1.0, 1.0]), np.array([0.5, 2.0])):
+                want = float(np.sum((pt[0] + pt[1] * x - y) ** 2))
+                got = float(seen["fun"](pt))
+                if abs(got - want) > 1e-9 * max(1.0, want):
+                    return {"confirmed": True, "detail": f"objective handed to the optimiser at p={pt.tolist()}: {got!r}, sum of squared residuals: {want!r}"}
+        # optimality on the constraint: the best admissible line has b = 1 and the least-squares intercept for that slope
+        a_best = float(np.mean(y - 1.0 * x))
+        sse = lambda a_, b_: float(np.sum((a_ + b_ * x - y) ** 2))  # noqa: E731
+        got_sse = sse(float(d.parameters["a"]), b)
+        return {"confirmed": bool(got_sse > sse(a_best, 1.0) * (1 + 1e-3) + 1e-9),
+                "detail": f"fitted (a, b) = ({d.parameters['a']}, {b}) has squared error {got_sse}; the admissible optimum (a={a_best}, b=1) has {sse(a_best, 1.0)}"}
 
 
 # ------------------------------------------------------------------------------------------------ DependenceFunction
@@ -238,7 +263,7 @@ def new_depfunc(itp, func, bounds=None, constraints=None, weights=None, **deps):
     return itp.instantiate(ClassRef(DF), [func], dict(bounds=bounds, constraints=constraints, weights=weights, **deps))
 
 
-@contract(DF + ".__init__", ["C08", "C14"], [dict(defaults=d, dep=dp) for d in ("none", "some", "all") for dp in ("none", "c", "b")], name="depfunc.init")
+@contract(DF + ".__init__", ["C08", "C14"], [dict(defaults=d, dep=dp) for d in ("none", "some", "all") for dp in ("none", "c", "b")] + [dict(defaults=d, dep="b+c") for d in ("none", "all")], name="depfunc.init")
 class DepInit(Contract):
     """free parameters in signature order with their defaults (1 if none); a parameter given as another
     DependenceFunction is bound by keyword under its own name, removed from the free parameters, and this function
@@ -255,8 +280,14 @@ class DepInit(Contract):
         self.other = new_depfunc(itp, UserFunc("g", ["p", "q"])) if case["dep"] != "none" else None
         self.obj = SObj(DF, owner="call")
         kw = {}
-        if self.other is not None:
+        self.others = {}
+        if case["dep"] == "b+c":
+            # two parameters given as dependence functions: BOTH stay bound
+            self.others = {"b": self.other, "c": new_depfunc(itp, UserFunc("h", ["r"]))}
+            kw = dict(self.others)
+        elif self.other is not None:
             kw[case["dep"]] = self.other
+            self.others = {case["dep"]: self.other}
         return [self.obj, self.func], kw
 
     def post(self, itp, case, inp, out):
@@ -265,7 +296,7 @@ class DepInit(Contract):
             cx.oblige("post.returns", False, "post", f"raised {out.exc}: {out.msg}")
             return
         f = self.obj.fields
-        free = [p for p in ("a", "b", "c") if p != case["dep"]]
+        free = [p for p in ("a", "b", "c") if p not in self.others]
         pars = f.get("parameters")
         cx.oblige("post.free_parameters.order", isinstance(pars, dict) and list(pars) == free, "post", "free parameters in signature order")
         if isinstance(pars, dict):
@@ -276,11 +307,22 @@ class DepInit(Contract):
                     cx.oblige(f"post.default.{p}", (got is want) if isinstance(want, Sym) else (got == want), "post", "default from the signature, 1 otherwise")
         if self.other is not None:
             dp = f.get("dependent_parameters")
-            cx.oblige("post.bound_under_own_key", isinstance(dp, dict) and list(dp) == [case["dep"]] and dp[case["dep"]] is self.other, "post")
+            keys = list(self.others)
+            cx.oblige("post.bound_under_own_key", isinstance(dp, dict) and sorted(dp) == sorted(keys) and all(dp[k_] is self.others[k_] for k_ in keys), "post")
             fn = f.get("func")
-            cx.oblige("post.partial_binding", isinstance(fn, PartialVal) and fn.func is self.func and list(fn.kwargs) == [case["dep"]] and fn.kwargs[case["dep"]] is self.other and not fn.args,
-                      "post", "the dependent function is bound by keyword under its own parameter name")
-            cx.oblige("post.registered", self.obj in [d for d in self.other.fields.get("dependents", [])] and len(self.other.fields.get("dependents", [])) == 1, "post")
+            # the callable that is finally stored binds EVERY dependence function by keyword (possibly through nested partials)
+            bound = {}
+            g = fn
+            while isinstance(g, PartialVal):
+                for k_, v_ in g.kwargs.items():
+                    bound.setdefault(k_, v_)
+                if g.args:
+                    bound["<positional>"] = g.args
+                g = g.func
+            cx.oblige("post.partial_binding", g is self.func and sorted(bound) == sorted(keys) and all(bound[k_] is self.others[k_] for k_ in keys), "post",
+                      "every dependence function is bound by keyword under its own parameter name")
+            for k_, o_ in self.others.items():
+                cx.oblige(f"post.registered.{k_}", self.obj in [d for d in o_.fields.get("dependents", [])] and len(o_.fields.get("dependents", [])) == 1, "post")
             cx.oblige("post.may_not_fit_yet", f.get("_may_fit") is False, "post")
         else:
             cx.oblige("post.may_fit", f.get("_may_fit") is True and f.get("dependent_parameters") == {} and f.get("func") is self.func, "post")
